@@ -164,6 +164,34 @@ Theorem maxint_cap_legacy_refuted :
   model maxint_stack_witness = OStack (DOk (pat 0 0 50)).
 Proof. exact maxint_cap_legacy_refuted_by_witness. Qed.
 
+(* 10. which routes escape the advertised cap: exactly the health probe ("/health" and, under a
+       route prefix, prefix ++ "/health") and what lies BELOW it after a slash — a method whose
+       name merely starts with health (healthcheck, health_echo) is capped like any other.
+       The code's test (is_exempt) is the specification's (s_exempt, written differently), and
+       the At inputs are the plain ones with the exemption computed from prefix and path, so
+       theorems 1-4 apply to them with r_exempt = is_exempt pfx path. *)
+Theorem exempt_exactly_the_health_routes : forall pfx path,
+  is_exempt pfx path = true <->
+  exists base, (base = pfx ++ health_route \/ base = health_route) /\
+               (path = base \/ exists rest, path = base ++ SLASH :: rest).
+Proof. exact exempt_exact. Qed.
+
+Theorem exempt_code_is_spec : forall pfx path, is_exempt pfx path = s_exempt pfx path.
+Proof. exact exempt_eq. Qed.
+
+Theorem at_inputs_resolve : forall pfx path ops rq t,
+  model (DirectAt pfx path ops rq t) = model (Direct ops (with_exempt (is_exempt pfx path) rq) t) /\
+  model (HttpAt pfx path ops rq t) = model (Http ops (with_exempt (is_exempt pfx path) rq) t).
+Proof. exact at_resolve. Qed.
+
+Example exempt_examples :
+  is_exempt [] (str "/health") = true /\ is_exempt [] (str "/health/live") = true /\
+  is_exempt [] (str "/healthcheck") = false /\ is_exempt [] (str "/health_echo/init") = false /\
+  is_exempt (str "/vgi") (str "/vgi/health") = true /\ is_exempt (str "/vgi") (str "/vgi/healthz") = false /\
+  is_exempt (str "/vgi") (str "/health") = true /\ is_exempt (str "/vgi") (str "/x/health") = false /\
+  is_exempt [] [] = false.
+Proof. repeat split; vm_compute; reflexivity. Qed.
+
 (* non-vacuity: the codec premise is satisfiable (the identity transform seen as one clean
    segment), and concrete requests meet the hypotheses of 1, 2 and 5 *)
 Example premises_satisfiable :
